@@ -98,7 +98,7 @@ func keyspaceWrites(p *Prog, r *Report, rule string) {
 			continue
 		}
 		var bad []string
-		if acc.Fn != cr.intercept {
+		if !cr.inIntercept(acc.Fn) {
 			bad = append(bad, "written outside the system-statement interceptor")
 		}
 		if len(acc.Fn.Params) == 0 || acc.Base != acc.Fn.Params[0] {
@@ -153,7 +153,7 @@ func keyspaceWrites(p *Prog, r *Report, rule string) {
 	// failing USE: exactly one send and no keyspace write -- by simulation of the interceptor's USE arm
 	s := newSim(p)
 	s.Tracked[ksF] = true
-	s.Inline = func(f *ssa.Function) bool { return false }
+	s.Inline = func(f *ssa.Function) bool { return cr.ihelp[f] }
 	s.Effect = func(call ssa.CallInstruction, callee *ssa.Function) []string {
 		if callee != nil && cr.send[callee] {
 			return []string{"send"}
@@ -532,7 +532,14 @@ func useReply(p *Prog, r *Report, rule string) {
 	useKsF := p.Field("parser", "UseStatement", "Keyspace")
 	var bad []string
 	n := 0
-	for _, lit := range structLits(cr.intercept, func(t types.Type) bool { return typeIs(t, "message", "SetKeyspaceResult") }) {
+	var lits []map[string]ssa.Value
+	for _, f := range cr.interceptFns() {
+		lits = append(lits, structLits(f, func(t types.Type) bool { return typeIs(t, "message", "SetKeyspaceResult") })...)
+	}
+	if len(lits) == 0 {
+		fatalf("rule %s: the interceptor (and its helpers) builds no SetKeyspaceResult", rule)
+	}
+	for _, lit := range lits {
 		n++
 		v := lit["Keyspace"]
 		okID := false
